@@ -80,7 +80,8 @@ class AwaitCtl:
             ctx.assumptions_used.add("external:asyncio.shield")
             if self.cancellable and ctx.choose(2, "shield: outer cancel?") == 1:
                 _log(ctx, {"kind": "shield", "outcome": "cancelled"})
-                ctx.emit("shield.outer_cancel", aw.inner)
+                inner = aw.inner.coro if isinstance(aw.inner, TaskAwait) else aw.inner
+                ctx.emit("shield.outer_cancel", getattr(inner, "qualname", None), tuple(getattr(inner, "args", None) or ()))
                 raise PyRaise(mk_cancelled())
             prev = self.cancellable
             self.cancellable = False
@@ -130,6 +131,11 @@ class AwaitCtl:
             b["fx"] = list(ctx.fx)
             ctx.check_obligation(f"{qn}::await.{cid}", eval_clause(I, lam, _sel(lam, b), old_view=I.entry_old_view))
         havoc_interference(I, spec, so, self.bindings)
+        if spec is not None and so is not None:
+            from .snapshot import clone_graph
+
+            itf = spec.interference if spec.interference is not None else list(spec.fields)
+            ctx.ghost["__last_suspend_state__"] = clone_graph({f_: so.fields.get(f_) for f_ in itf})
         if spec is not None and so is not None:
             spec.assume_invariants(I, so)
             for rid, lam in getattr(spec, "rely", []) or []:
@@ -245,13 +251,16 @@ class AwaitCtl:
             except _Interrupt as it:
                 raise PyRaise(it.exc)
             r = modular.apply_contract(I, con, coro.pyfunc, coro.args, coro.kwargs, coro.bound_self)
-            I._log(ctx, {"kind": coro.qualname, "outcome": "return"})
+            _log(I.ctx, {"kind": coro.qualname, "outcome": "return"})
             return r
         # no contract (or inline): the callee's body runs in place; its awaits come back here
         return coro.runner(I)
 
 
 def _log(ctx, rec):
+    st = ctx.ghost.pop("__last_suspend_state__", None)
+    if st is not None:
+        rec["state"] = st
     ctx.await_log.append(rec)
     ctx.emit("await", rec.get("kind"), rec.get("outcome"))
 
